@@ -14,7 +14,9 @@ def tm_specs(draw, max_states=5, sigma=None, halting_initial=True, pool=POOL):
     Q = draw(names(n, pool))
     S = list(sigma) if sigma is not None else draw(st.sampled_from([["a"], ["a", "b"], ["0", "1"], []]))
     blank = draw(st.sampled_from(BLANKS))
-    G = S + [blank] + draw(st.lists(st.sampled_from(EXTRA), max_size=1))
+    # an extra tape symbol; one time in six a character that is the blank symbol of other machines
+    extra = [x for x in EXTRA + (["□", "_", "□"] if draw(st.integers(0, 5)) == 0 else []) if x != blank]
+    G = S + [blank] + draw(st.lists(st.sampled_from(extra), max_size=1))
     acc, rej = Q[-1], Q[-2]
     q0 = Q[0]
     if halting_initial and draw(st.integers(0, 11)) == 0:
